@@ -8,7 +8,7 @@
     the writes a plan may attach to the predicate deferred ones, so that they cannot disturb the
     values the recompute reads.  [firstFault (actions_of p n WCut) = None] = "no fault is planned
     for the predicate of n".  [pendOnly s t] = [t] is [s] up to [pending] fields and [setDuring]. *)
-From incr Require Import Base Heap EngineDefs Engine EngineWf EngineLocal.
+From incr Require Import Base Heap EngineDefs Engine EngineWf EngineLocal Spec SpecProofs.
 
 (** ** 1. A true verdict keeps the value and stops the propagation *)
 Theorem C11_cut_keeps_value_and_stops : forall fuel p s n c s' e imm,
@@ -109,9 +109,22 @@ Theorem C11_equal_cutoff_consistent : forall fuel p s n s' e imm,
 Proof. exact C11_equal_cutoff_consistent. Qed.
 Print Assumptions C11_equal_cutoff_consistent.
 
-(* Placeholder (to be wired by the coordinator): the spec-level inertness of equality cutoffs,
-   proved in SpecProofs.v.
-Theorem C11_equal_cutoff_inert_spec : ... .
+(** Spec-level inertness of equality cutoffs (proved in SpecProofs.v): the from-scratch meaning
+    of a program treats a CutoffEqual node, and a CutoffEqual inside a bind template, as the
+    identity; erasing every equality cutoff from the bind templates changes no node's meaning.
+    Together with C01 (values agree with the from-scratch meaning after every successful pass)
+    this is "inserting CutoffEqual anywhere never changes any observer value". *)
+Theorem C11_equal_cutoff_inert_spec :
+  (forall s n a fuel, nkind (nd s n) = KCutoff CEq -> decl (nd s n) = [a] ->
+     eval s (S fuel) n = eval s fuel a)
+  /\ (forall fuel ev x e, evalT (S fuel) ev x (TCut CEq e) = evalT fuel ev x e)
+  /\ (forall s n a v, nkind (nd s n) = KCutoff CEq -> decl (nd s n) = [a] ->
+        (denotes s n v <-> denotes s a v))
+  /\ (forall ev x e v, denotesT ev x (TCut CEq e) v <-> denotesT ev x e v).
 Proof. exact SpecProofs.C11_equal_cutoff_inert_spec. Qed.
 Print Assumptions C11_equal_cutoff_inert_spec.
-*)
+
+Theorem C11_erase_equal_cutoff_templates : forall s n v,
+  denotes (erase_eq_templates s) n v <-> denotes s n v.
+Proof. exact SpecProofs.C11_erase_equal_cutoff_templates. Qed.
+Print Assumptions C11_erase_equal_cutoff_templates.
